@@ -93,6 +93,11 @@ def execute(c):
     use_cls = lib.vid(c) % 4 == 3 and len(c["trees"]) == 1
     f = mk_op(o, wind, use_cls, lib.vid(c))
     g = mk_op(c["oi"], -wind, False, lib.vid(c) // 3) if c["kind"] == "inverse" else None
+    if c["kind"] == "pipe":
+        # two steps in a row: composed with Transforms(first, second), or applied one after the other
+        from swcgeom.transforms import Transforms
+        f1, f2 = mk_op(o, 0, False, 0), mk_op(c["oi"], 0, False, 0)
+        f = Transforms(f1, f2) if lib.vid(c) % 2 == 0 else (lambda t: f2(f1(t)))
     res, kept = [], 1
     for j, pts in enumerate(c["trees"]):
         t = mk_tree(pts, j, custom=(lib.vid(c) % 4 == 2))
